@@ -207,3 +207,88 @@ def wcs_spec(rng, proj=None, parity=None, frame=None, scale=None, crval=None, co
         hdr['EQUINOX'] = 1950.0
     return {'t': 'wcs', 'hdr': hdr, 'frame': frame, 'proj': proj, 'scale': scale, 'parity': parity,
             'rot_deg': math.degrees(rot)}
+
+
+# ---------------------------------------------------------------------------
+# sky regions
+SKY_SIMPLE = ['CircleSkyRegion', 'EllipseSkyRegion', 'RectangleSkyRegion', 'PolygonSkyRegion']
+SKY_ANNULI = ['CircleAnnulusSkyRegion', 'EllipseAnnulusSkyRegion', 'RectangleAnnulusSkyRegion']
+SKY_EMPTY = ['PointSkyRegion', 'LineSkyRegion', 'TextSkyRegion']
+ALL_SKY = SKY_SIMPLE + SKY_ANNULI + SKY_EMPTY
+SKY_FRAMES = ['icrs', 'fk5', 'fk4', 'galactic']
+SIZE_UNITS = {'arcsec': 3600.0, 'arcmin': 60.0, 'deg': 1.0}
+
+
+def sky_size(rng, deg):
+    unit = rng.choice(list(SIZE_UNITS))
+    return S.q(deg * SIZE_UNITS[unit], unit, angle=rng.random() < 0.3)
+
+
+def sky_region_spec(rng, cls=None, frame=None, lon=None, lat=None, size_deg=None, include=None, classes=None,
+                    meta_extra=None, angle=None):
+    cls = cls or rng.choice(classes or ALL_SKY)
+    frame = frame or rng.choice(SKY_FRAMES)
+    lon = rng.uniform(0, 360) if lon is None else lon
+    lat = rng.uniform(-80, 80) if lat is None else lat
+    L = size_deg if size_deg is not None else logu(rng, 1e-4, 1.0)
+    meta = meta_with_include(rng, include)
+    if meta_extra:
+        meta = dict(meta or {})
+        meta.update(meta_extra)
+    ang = angle if angle is not None else angle_spec(rng)
+    asp = logu(rng, 1.0, 20.0)
+    w, h = (L, L / asp) if rng.random() < 0.5 else (L / asp, L)
+    c = S.sky(lon, lat, frame)
+    if cls == 'CircleSkyRegion':
+        return S.reg(cls, meta=meta, center=c, radius=sky_size(rng, L / 2))
+    if cls in ('EllipseSkyRegion', 'RectangleSkyRegion'):
+        return S.reg(cls, meta=meta, center=c, width=sky_size(rng, w), height=sky_size(rng, h), angle=ang)
+    if cls == 'PolygonSkyRegion':
+        n = rng.randint(3, 9)
+        angs = sorted(rng.uniform(0, 2 * math.pi) for _ in range(n))
+        cl = max(math.cos(math.radians(lat)), 0.05)
+        lons = [lon + 0.5 * L * rng.uniform(0.3, 1) * math.cos(t) / cl for t in angs]
+        lats = [max(-89.0, min(89.0, lat + 0.5 * L * rng.uniform(0.3, 1) * math.sin(t))) for t in angs]
+        return S.reg(cls, meta=meta, vertices=S.sky(S.arr_spec(lons), S.arr_spec(lats), frame))
+    if cls == 'CircleAnnulusSkyRegion':
+        f = rng.uniform(0.1, 0.9)
+        return S.reg(cls, meta=meta, center=c, inner_radius=sky_size(rng, f * L / 2), outer_radius=sky_size(rng, L / 2))
+    if cls in ('EllipseAnnulusSkyRegion', 'RectangleAnnulusSkyRegion'):
+        f1, f2 = rng.uniform(0.1, 0.9), rng.uniform(0.1, 0.9)
+        return S.reg(cls, meta=meta, center=c, inner_width=sky_size(rng, f1 * w), outer_width=sky_size(rng, w),
+                     inner_height=sky_size(rng, f2 * h), outer_height=sky_size(rng, h), angle=ang)
+    if cls == 'PointSkyRegion':
+        return S.reg(cls, meta=meta, center=c)
+    if cls == 'TextSkyRegion':
+        return S.reg(cls, meta=meta, center=c, text=rng.choice(['hello', 'a b', 'x;y#z=1', 'Text']))
+    if cls == 'LineSkyRegion':
+        cl = max(math.cos(math.radians(lat)), 0.05)
+        return S.reg(cls, meta=meta, start=c, end=S.sky(lon + rng.uniform(-1, 1) * L / cl,
+                                                        max(-89.0, min(89.0, lat + rng.uniform(-1, 1) * L)), frame))
+    raise ValueError(cls)
+
+
+META_VOCAB = {'label': ['src 1', 'A'], 'tag': [['g1'], ['g1', 'g2']], 'comment': ['hi there'], 'name': ['n1'],
+              'frame': ['ICRS'], 'range': [[1, 2]], 'corr': [['I', 'Q']], 'type': ['reg'], 'text': ['some text'],
+              'source': [1], 'background': [0], 'select': [1], 'component': [3]}
+VISUAL_VOCAB = {'color': ['red', '#00ff00', 'blue'], 'linewidth': [1, 2.5], 'fontname': ['helvetica'], 'fontsize': [10, 12],
+                'fontweight': ['bold'], 'fontstyle': ['normal', 'italic'], 'symbol': ['circle', 'x'], 'symsize': [11],
+                'dashlist': [[8, 3]], 'dash': [1], 'fill': [0, 1], 'textangle': [30.0], 'facecolor': ['green'],
+                'edgecolor': ['k'], 'linestyle': ['--'], 'marker': ['+'], 'markersize': [5], 'rotation': [15.0]}
+
+
+def rich_meta(rng, include=None, nmax=4):
+    m = {}
+    for k in rng.sample(sorted(META_VOCAB), rng.randint(0, nmax)):
+        m[k] = rng.choice(META_VOCAB[k])
+    inc = rng.choice(INCLUDE_CHOICES) if include is None else include
+    if inc != 'absent':
+        m['include'] = inc
+    return m
+
+
+def rich_visual(rng, nmax=4):
+    v = {}
+    for k in rng.sample(sorted(VISUAL_VOCAB), rng.randint(0, nmax)):
+        v[k] = rng.choice(VISUAL_VOCAB[k])
+    return v
